@@ -162,6 +162,20 @@ CLAIMED["C01"] = dict(
          "driver, harness door verif::session",
     design="DESIGN.md 5 C01")
 
+CLAIMED["C10"] = dict(
+    text="Coq theorems on the per-request handling model (Model/TunnelGate.v): status 200 exactly when the request passed the gate and "
+         "its destination was connected or the multiplexer / health check was accepted; 407 exactly on an authentication failure; a failed "
+         "attempt is 502 with the documented X-Warning code (300/301/302/310/311) and the host-name header exactly for the two policy "
+         "refusals, which cause no traffic; the reserved authorities are matched exactly (CONNECT to them is never a destination, other "
+         "methods on them are 502 without traffic, any other spelling is an ordinary destination); CONNECT without a port is refused "
+         "before any attempt. Tied by translator facts (dispatch arms, constants, warning table arm by arm) and by sessions of the real "
+         "stack over HTTP/1.1 and HTTP/2 against destinations of chosen outcome (accept, refused, full accept queue -> timeout, "
+         "unresolvable, private/loopback literals with private connections disallowed), counting final responses per request",
+    note="partial: ENETUNREACH/EHOSTUNREACH (301) and descriptor exhaustion cannot be provoked in the sandbox; 'exactly one response' "
+         "is a construction property of the model (one answer per request) observed on the real stack by counting response heads; "
+         "trusted as for C01",
+    design="DESIGN.md 5 C10")
+
 PENDING_REASON = "check under construction in this round (designed in DESIGN.md, not yet wired into ./check)"
 
 
